@@ -69,6 +69,10 @@ fn ctx_inv(c: &BlockHashContext) -> bool {
     if c.blockhash_ch_half != NIL && c.blockhash_ch_half >= 64 {
         ok = false;
     }
+    // below 32 pieces the two FNV states are reset together, so they agree
+    if c.blockhash_index < 32 && c.h_half.value() != c.h_full.value() {
+        ok = false;
+    }
     ok
 }
 
@@ -160,34 +164,42 @@ fn relevant_untracked(g: &GeneratorInnerData, j: usize) -> bool {
     j >= g.bhidx_end && (j <= g.bhidx_end_limit || (j == 31 && g.bhidx_end_limit == 30))
 }
 
-/// alpha(G): the pure state on the levels lo..=hi (others left at their defaults)
-fn alpha(g: &GeneratorInnerData, lo: usize, hi: usize) -> [SpecLevel; 32] {
-    let mut s = [SpecLevel::new(); 32];
-    let top = &g.bh_context[g.bhidx_end - 1];
+/// alpha(G): the pure state that corresponds to a generator with the CONCRETE active range
+/// [st, en).  Levels st..en are read off the contexts.  Every level >= en that has not been
+/// forked yet is in one and the same pure state `u` (no piece, FNV states of the whole
+/// input so far = those of the top context, which has no piece either); the pseudo level 31
+/// differs from `u` only once the last-piece hash is being maintained.
+struct Pure {
+    lev: [SpecLevel; 31],
+    u: SpecLevel,
+    l31: SpecLevel,
+}
+
+fn alpha(g: &GeneratorInnerData, st: usize, en: usize) -> Pure {
+    let mut lev = [SpecLevel::new(); 31];
     let mut j = 0;
-    while j < 32 {
-        if j >= lo && j <= hi {
-            if j < g.bhidx_end {
-                if j < 31 {
-                    s[j] = alpha_ctx(&g.bh_context[j]);
-                }
-            } else {
-                // not yet forked: no piece, FNV states are those of the whole input so far
-                s[j] = SpecLevel::new();
-                s[j].h = if j == 31 && g.is_last { g.h_last.value() } else { top.h_full.value() };
-                s[j].hh = top.h_half.value();
-            }
+    while j < 31 {
+        if j >= st && j < en {
+            lev[j] = alpha_ctx(&g.bh_context[j]);
         }
         j += 1;
     }
-    s
+    let top = &g.bh_context[en - 1];
+    let mut u = SpecLevel::new();
+    u.h = top.h_full.value();
+    u.hh = top.h_half.value();
+    let mut l31 = SpecLevel::new();
+    l31.h = if g.is_last { g.h_last.value() } else { top.h_full.value() };
+    Pure { lev, u, l31 }
 }
 
-fn level_eq(a: &SpecLevel, b: &SpecLevel) -> bool {
-    let mut same = a.n == b.n && a.h == b.h && a.hh == b.hh && a.chh == b.chh && a.p[63] == b.p[63];
+/// does the real context hold exactly the pure level?
+fn ctx_is(c: &BlockHashContext, s: &SpecLevel) -> bool {
+    let mut same = c.blockhash_index == s.n && c.h_full.value() == s.h && c.h_half.value() == s.hh
+        && c.blockhash_ch_half == s.chh && c.blockhash[63] == s.p[63];
     let mut i = 0;
     while i < 63 {
-        if i < a.n && a.p[i] != b.p[i] {
+        if i < s.n && c.blockhash[i] != s.p[i] {
             same = false;
         }
         i += 1;
@@ -195,43 +207,100 @@ fn level_eq(a: &SpecLevel, b: &SpecLevel) -> bool {
     same
 }
 
-/// pure step of the levels lo..=hi for input byte c and post-update rolling value rv
-fn spec_step(s: &mut [SpecLevel; 32], lo: usize, hi: usize, c: u8, rv: u32) {
+fn triggers(depth: Option<u32>, j: usize) -> bool {
+    match depth {
+        Some(d) => j < 31 && (j as u32) <= d,
+        None => false,
+    }
+}
+
+/// One pure step for input byte c whose post-update rolling value is rv, followed by the
+/// comparison with the real post-state g1 (whose range may have grown on both sides):
+/// alpha(G') == step(alpha(G)) on every level that can still matter.
+fn step_and_compare(pre: &Pure, st: usize, en: usize, c: u8, rv: u32, g1: &GeneratorInnerData) -> bool {
     let depth = spec_trigger_depth_fast(rv);
+    // the two possible successors of a not-yet-forked level, and of the pseudo level
+    let mut u_plain = pre.u;
+    u_plain.absorb(c);
+    let mut u_trig = u_plain;
+    u_trig.end_piece();
+    let mut l31 = pre.l31;
+    l31.absorb(c);
+    let (st1, en1) = (g1.bhidx_start, g1.bhidx_end);
+    let top1 = &g1.bh_context[en1 - 1];
+    let mut ok = true;
     let mut j = 0;
-    while j < 32 {
-        if j >= lo && j <= hi {
-            s[j].absorb(c);
-            if let Some(d) = depth {
-                if j < 31 && (j as u32) <= d {
-                    s[j].end_piece();
+    while j < 31 {
+        if j >= st {
+            if j >= st1 && j < en1 {
+                // tracked after the step
+                let mut want = if j < en { pre.lev[j] } else { u_plain };
+                if j < en {
+                    want.absorb(c);
+                    if triggers(depth, j) {
+                        want.end_piece();
+                    }
+                } else if triggers(depth, j) {
+                    want = u_trig;
+                }
+                if !ctx_is(&g1.bh_context[j], &want) {
+                    ok = false;
+                }
+            } else if j >= en1 && relevant_untracked(g1, j) {
+                // still not forked: the pure level must not have ended a piece, and its FNV
+                // states are those of the new top context
+                if triggers(depth, j) || top1.h_full.value() != u_plain.h || top1.h_half.value() != u_plain.hh {
+                    ok = false;
                 }
             }
         }
         j += 1;
     }
+    // pseudo level 31 (never ends a piece)
+    if g1.bhidx_end_limit == 30 {
+        let have = if g1.is_last { g1.h_last.value() } else { top1.h_full.value() };
+        if have != l31.h {
+            ok = false;
+        }
+    }
+    ok
 }
 
-/// alpha(G') == S' on every level that still matters
-fn sim(g: &GeneratorInnerData, s: &[SpecLevel; 32], hi: usize) -> bool {
-    let a = alpha(g, g.bhidx_start, hi);
+/// invariant of a post-state whose range is symbolic but known to start at or after `lo`
+fn inv_post(g: &GeneratorInnerData, lo: usize) -> bool {
+    let (st, en) = (g.bhidx_start, g.bhidx_end);
+    if !(lo <= st && st < en && en <= 31) {
+        return false;
+    }
+    if g.bhidx_end_limit > 30 || en > g.bhidx_end_limit + 1 {
+        return false;
+    }
+    if g.roll_mask != ((1u64 << st) - 1) as u32 || g.elim_border != (192u64 << st) {
+        return false;
+    }
     let mut ok = true;
     let mut j = 0;
-    while j < 32 {
-        if j >= g.bhidx_start && j <= hi {
-            if j < g.bhidx_end {
-                if !level_eq(&a[j], &s[j]) {
-                    ok = false;
-                }
-            } else if relevant_untracked(g, j) {
-                // untracked: only (n == 0, h, hh) are defined by alpha; on the pseudo level
-                // 31 only h is ever read
-                if s[j].n != 0 || s[j].p[63] != SPEC_NIL || s[j].h != a[j].h || (j < 31 && (s[j].hh != a[j].hh || s[j].chh != SPEC_NIL)) {
-                    ok = false;
-                }
+    while j < 31 {
+        if j >= lo && j >= st && j < en {
+            if !ctx_inv(&g.bh_context[j]) {
+                ok = false;
+            }
+            if j + 1 < en && (cnt(&g.bh_context[j]) < cnt(&g.bh_context[j + 1]) || g.bh_context[j].blockhash_index == 0) {
+                ok = false;
             }
         }
         j += 1;
+    }
+    let top = &g.bh_context[en - 1];
+    if en <= g.bhidx_end_limit && top.blockhash_index != 0 {
+        ok = false;
+    }
+    if g.is_last {
+        if !(g.bhidx_end_limit == 30 && en == 31 && g.bh_context[30].blockhash_index >= 1) {
+            ok = false;
+        }
+    } else if g.bhidx_end_limit == 30 && en == 31 && g.bh_context[30].blockhash_index != 0 {
+        ok = false;
     }
     ok
 }
@@ -267,13 +336,21 @@ fn c01_trigger_depth_lemma() {
 /// reset() of a COMPLETELY ARBITRARY generator gives a state that is indistinguishable
 /// from new() for every future history (same invariant, same alpha on all levels that
 /// matter: stale contexts >= bhidx_end and a stale h_last are exactly what alpha ignores).
+/// alpha(G) is the initial pure state: every level without a piece and with the initial
+/// FNV states (stale contexts >= bhidx_end and a stale h_last are exactly what alpha ignores)
+fn is_initial(g: &GeneratorInnerData) -> bool {
+    let p = alpha(g, 0, 1);
+    let z = SpecLevel::new();
+    let same = |a: &SpecLevel| a.n == 0 && a.h == z.h && a.hh == z.hh && a.chh == SPEC_NIL && a.p[63] == SPEC_NIL;
+    same(&p.lev[0]) && same(&p.u) && same(&p.l31) && !g.is_last && g.bhidx_end_limit == 30
+}
+
 #[kani::proof]
 #[kani::unwind(66)]
 fn c12_new_and_reset() {
     let fresh = Generator::new();
     assert!(inv(&fresh.0, 0, 1));
-    let s0 = [SpecLevel::new(); 32];
-    assert!(sim(&fresh.0, &s0, 31));
+    assert!(is_initial(&fresh.0));
     assert!(fresh.input_size() == 0 && fresh.0.fixed_size.is_none() && !fresh.0.is_last);
     assert!(Generator::default().0 == fresh.0);
     // arbitrary garbage, then reset
@@ -287,7 +364,7 @@ fn c12_new_and_reset() {
     g.0.bh_context[30] = any_ctx();
     g.reset();
     assert!(inv(&g.0, 0, 1));
-    assert!(sim(&g.0, &s0, 31));
+    assert!(is_initial(&g.0));
     assert!(g.input_size() == 0 && g.0.fixed_size.is_none() && !g.0.is_last);
     assert!(g.0.bhidx_end_limit == 30 && g.0.roll_hash == RollingHash::new());
     assert!(g.may_warn_about_small_input_size());
@@ -322,7 +399,7 @@ fn step_byte(st: usize, en: usize) {
     kani::assume(inv(&g0, st, en));
     let f: u64 = kani::any();
     kani::assume(size_ok(&g0, f) && elim_ok(&g0, f) && g0.input_size < f);
-    let mut s = alpha(&g0, st, 31);
+    let pre = alpha(&g0, st, en);
     let c: u8 = kani::any();
     // the rolling value after this byte (opaque component, see module comment)
     let mut r = g0.roll_hash;
@@ -330,12 +407,11 @@ fn step_byte(st: usize, en: usize) {
     let rv = r.value();
     let mut gen = Generator(g0);
     gen.update_by_byte(c);
-    spec_step(&mut s, st, 31, c, rv);
     let g1 = &gen.0;
     let (st1, en1) = (g1.bhidx_start, g1.bhidx_end);
     assert!(st1 >= st && en1 >= en && st1 < en1 && en1 <= 31);
-    assert!(inv(g1, st1, en1));
-    assert!(sim(g1, &s, 31));
+    assert!(inv_post(g1, st));
+    assert!(step_and_compare(&pre, st, en, c, rv, g1));
     assert!(g1.input_size == g0.input_size + 1 && g1.fixed_size == g0.fixed_size && g1.bhidx_end_limit == g0.bhidx_end_limit);
     assert!(size_ok(g1, f) && elim_ok(g1, f));
     assert!(g1.roll_hash == r);
@@ -353,13 +429,14 @@ fn step_two(st: usize, en: usize, form: u8) {
     kani::assume(inv(&g0, st, en));
     let f: u64 = kani::any();
     kani::assume(size_ok(&g0, f) && elim_ok(&g0, f) && g0.input_size < f && g0.input_size + 1 < f);
-    let mut s = alpha(&g0, st, 31);
     let buf: [u8; 2] = kani::any();
-    let mut r = g0.roll_hash;
-    r.update_by_byte(buf[0]);
-    let rv0 = r.value();
-    r.update_by_byte(buf[1]);
-    let rv1 = r.value();
+    // Reference: the same two bytes through update_by_byte, whose every step is covered by the
+    // single-byte obligation for this range and (transitively) for the range it leads to.
+    // The chunked form must reach a state with the SAME pure content: the two post-states
+    // may differ only in how far elimination has advanced (the counter ran ahead).
+    let mut byref = Generator(g0);
+    byref.update_by_byte(buf[0]);
+    byref.update_by_byte(buf[1]);
     let mut gen = Generator(g0);
     match form {
         0 => {
@@ -375,17 +452,29 @@ fn step_two(st: usize, en: usize, form: u8) {
             gen += &buf;
         }
     }
-    spec_step(&mut s, st, 31, buf[0], rv0);
-    spec_step(&mut s, st, 31, buf[1], rv1);
-    let g1 = &gen.0;
-    let (st1, en1) = (g1.bhidx_start, g1.bhidx_end);
-    assert!(st1 >= st && en1 >= en && st1 < en1 && en1 <= 31);
-    assert!(inv(g1, st1, en1));
-    assert!(sim(g1, &s, 31));
-    assert!(g1.input_size == g0.input_size + 2);
+    let (g1, gr) = (&gen.0, &byref.0);
+    assert!(inv_post(g1, st));
+    assert!(g1.input_size == g0.input_size + 2 && gr.input_size == g1.input_size);
     assert!(size_ok(g1, f) && elim_ok(g1, f));
-    kani::cover!(st1 > st || en - st < 2);
-    kani::cover!(en1 > en || en == 31 || g0.bhidx_end_limit < en);
+    assert!(g1.bhidx_end == gr.bhidx_end && g1.is_last == gr.is_last && g1.roll_hash == gr.roll_hash);
+    assert!(g1.fixed_size == gr.fixed_size && g1.bhidx_end_limit == gr.bhidx_end_limit);
+    assert!(!g1.is_last || g1.h_last.value() == gr.h_last.value());
+    // elimination can only be ahead in the chunked form, never behind
+    assert!(g1.bhidx_start >= gr.bhidx_start);
+    let mut j = 0;
+    while j < 31 {
+        if j >= st && j >= g1.bhidx_start && j < g1.bhidx_end {
+            assert!(ctx_is(&g1.bh_context[j], &alpha_ctx(&gr.bh_context[j])));
+        }
+        j += 1;
+    }
+    if form == 1 {
+        // the iterator form counts per byte: identical to the byte-wise reference
+        assert!(*g1 == *gr);
+    }
+    kani::cover!(g1.bhidx_start > st || en - st < 2);
+    kani::cover!(g1.bhidx_start > gr.bhidx_start || form == 1 || en - st < 2);
+    kani::cover!(g1.bhidx_end > en || en == 31 || g0.bhidx_end_limit < en);
 }
 
 /// += u8 is update_by_byte; update(&[]) and an empty iterator change nothing.
@@ -453,26 +542,26 @@ where
 }
 
 fn pure_digest(g: &GeneratorInnerData, st: usize, en: usize, truncate: bool) -> SpecDigest {
-    let s = alpha(g, st, 31);
+    let p = alpha(g, st, en);
     let mut counts = [0usize; 32];
     let mut j = 0;
     while j < 32 {
         // eliminated levels: their piece counts are unknown to the generator; the pure
-        // choice must not depend on them (arbitrary values)
-        counts[j] = if j < st { kani::any() } else { s[j].n };
+        // choice must not depend on them (arbitrary values).  Not-yet-forked levels: 0.
+        counts[j] = if j < st { kani::any() } else if j < en { p.lev[j].n } else { 0 };
         j += 1;
     }
     let bi = spec_choose_level(&counts, g.input_size, 0);
     // the pure choice never leaves the tracked range (that is part of the claim)
     assert!(bi >= st && bi < en);
     // select the two levels without a symbolic index
-    let mut a = s[st];
-    let mut b = s[st + 1];
+    let mut a = p.lev[st];
+    let mut b = p.u;
     let mut j = 0;
     while j < 31 {
         if j >= st && j < en && j == bi {
-            a = s[j];
-            b = s[j + 1];
+            a = p.lev[j];
+            b = if j + 1 < en { p.lev[j + 1] } else if j + 1 == 31 { p.l31 } else { p.u };
         }
         j += 1;
     }
@@ -502,9 +591,9 @@ fn digest_trunc(st: usize, en: usize) {
         Ok(h) => assert!(digest_eq::<32>(&h, &d)),
         Err(_) => assert!(false),
     }
-    kani::cover!(d.l2 == 32 && d.l1 == 64);
-    kani::cover!(d.log == en - 1);
-    kani::cover!(d.log == st && d.l1 < 32);
+    kani::cover!((d.l2 == 32 && d.l1 == 64) || en - st < 2);
+    kani::cover!(d.log == en - 1 || en - st > 1);
+    kani::cover!((d.log == st && d.l1 < 32) || st > 0);
 }
 
 fn digest_long(st: usize, en: usize) {
@@ -519,9 +608,9 @@ fn digest_long(st: usize, en: usize) {
         Ok(h) => assert!(d.l2 <= 32 && digest_eq::<32>(&h, &d)),
         Err(e) => assert!(d.l2 > 32 && e == GeneratorError::OutputOverflow),
     }
-    kani::cover!(d.l2 > 32);
-    kani::cover!(d.l2 == 32);
-    kani::cover!(d.l2 == 64 && d.l1 == 64);
+    kani::cover!(d.l2 > 32 || en - st < 2);
+    kani::cover!(d.l2 == 32 || en - st < 2);
+    kani::cover!((d.l2 == 64 && d.l1 == 64) || en - st < 2);
 }
 
 /// Error contract of finalization from an arbitrary invariant state.
@@ -683,4 +772,5 @@ fn c01_bmc_api_l3() { bmc_api::<3>() }
 
 // per-range instantiations selected by the runner
 include!(concat!(env!("CARGO_MANIFEST_DIR"), "/verif_gen/gen_pairs.rs"));
+
 
